@@ -631,8 +631,10 @@ fn p05(p: &mut ProbeReport, r: &mut Rng, budget: usize) {
         let v = vocab(code);
         let lang = make_lang(code);
         if i % 3 == 0 {
-            // exact-prefix clause on one-word titles
-            let w = v.word(r);
+            // exact-prefix clause on one-word titles; the first rounds take words whose characters change length
+            // when lower-cased or are unusual digits / ligatures
+            const SPECIAL: [&str; 8] = ["İstanbul", "DİYAR", "ﬁlter", "GROẞ", "ǅungla", "H₂O", "A۵۲s", "x²"];
+            let w = if i <= LANGS.len() * 3 * SPECIAL.len() { SPECIAL[(i / (LANGS.len() * 3)) % SPECIAL.len()].to_string() } else { v.word(r) };
             let t = tokenize_record(&w, &lang);
             if t.words.len() != 1 || has_sentinel(&w) { continue; }
             let scn = Scn { lang: code.into(), recs: vec![(1, w.clone(), 1)], limit: 10 };
@@ -1169,6 +1171,32 @@ fn p10(p: &mut ProbeReport, r: &mut Rng, budget: usize) {
         p.notes.insert("exhaustive_sequences".into(), total);
         p.notes.insert("exhaustive_max_len".into(), maxlen);
     }
+    // the same statement through the top-level API: every sequence up to a fixed length over {add, limit 1, limit 25,
+    // markers, search "pank", search ""} on one id, each result buffer compared with a stand-alone store on a fresh thread
+    {
+        let id = 905_001usize;
+        let alphabet: Vec<Op> = vec![
+            Op::RAdd(id, 0, 0, "pink".into()), Op::RAdd(id, 0, 1, "metal punk".into()), Op::RLimit(id, 1), Op::RLimit(id, 25),
+            Op::RMarkers(id, "{".into(), "}".into()), Op::RSearch(id, "pank".into()), Op::RSearch(id, "".into()),
+        ];
+        let maxlen = if budget > 20000 { 6 } else { 5 };
+        let mut idx: Vec<usize> = vec![];
+        let mut total = 0usize;
+        'outer: loop {
+            let mut k = idx.len();
+            loop { if k == 0 { idx = vec![0; idx.len() + 1]; break; } k -= 1; if idx[k] + 1 < alphabet.len() { idx[k] += 1; for j in k + 1..idx.len() { idx[j] = 0; } break; } }
+            if idx.len() > maxlen { break; }
+            // sequences that end in a search and contain an earlier search (a later state can only be stale w.r.t. an earlier answer)
+            if !matches!(alphabet[*idx.last().unwrap()], Op::RSearch(..)) || idx.iter().filter(|a| **a >= 5).count() < 2 { continue; }
+            total += 1;
+            let mut ops = vec![Op::RCreate(id, "en".into()), Op::RAdd(id, 1, 50, "punk pink".into())];
+            let (mut rid, mut hi, mut lo) = (1usize, 60usize, 40usize);
+            for a in &idx { ops.push(match &alphabet[*a] { Op::RAdd(i, _, 0, t) => { rid += 1; hi += 1; Op::RAdd(*i, rid, hi, t.clone()) } Op::RAdd(i, _, _, t) => { rid += 1; lo -= 1; Op::RAdd(*i, rid, lo, t.clone()) } o => o.clone() }); }
+            let case = Case { name: "c10-api-exhaustive".into(), lang: "en".into(), stream: "probe", ops };
+            if !reg_case_against_shadows(p, &case, "c10api") && p.failures.len() >= 4 { break 'outer; }
+        }
+        p.notes.insert("api_exhaustive_sequences".into(), total);
+    }
     // scratch state that grows: on a thread whose per-thread buffers are still at their initial capacity, ordinary
     // queries are answered, then a record with a very long word is added and asked for (the buffers grow), then the
     // ordinary queries are repeated; every answer is compared with a fresh store on a fresh thread. Three growth steps.
@@ -1408,6 +1436,43 @@ fn p12(p: &mut ProbeReport, r: &mut Rng, budget: usize) {
 
 // ---------------- C13: whole title / two words in either order ----------------
 fn p13(p: &mut ProbeReport, r: &mut Rng, budget: usize) {
+    // through the top-level API: a store that at first holds more records than its limit is asked for a title, the
+    // limit is raised to the store's size (the property now applies), and the same query is sent again
+    for (k, code) in LANGS.iter().cycle().take(LANGS.len() * 3).enumerate() {
+        let v = vocab(code);
+        let lang = make_lang(code);
+        let id = 720_000 + k;
+        let w = v.word(r);
+        // three records with the same title, the one asked for rated lowest: any limit below 3 cuts it
+        let title = format!("{} {}", w, v.word(r));
+        let recs: Vec<(usize, String, usize)> = (0..3).map(|i| (i + 1, title.clone(), 10 + 10 * i)).collect();
+        if recs.iter().any(|e| has_sentinel(&e.1)) || tokenize_record(&recs[0].1, &lang).words.is_empty() { continue; }
+        let t = tokenize_record(&recs[0].1, &lang);
+        let (a, b): (String, String) = (wchars(&t, 0).iter().collect(), wchars(&t, t.words.len() - 1).iter().collect());
+        let queries = [recs[0].1.clone(), format!("{} {} ", a, b), format!("{} {}", b, a)];
+        let mut ops: Vec<Op> = vec![Op::RCreate(id, code.to_string()), Op::RLimit(id, 1 + k % 2)];
+        for (rid, t, rt) in &recs { ops.push(Op::RAdd(id, *rid, *rt, t.clone())); }
+        let mut bad: Option<String> = None;
+        let res = guarded(|| {
+            core::create_store(id, make_lang(code));
+            core::set_limit(id, 1 + k % 2);
+            for (rid, t, rt) in &recs { core::add_record(id, *rid, t, *rt); }
+            for q in &queries {
+                // the same query immediately before and immediately after the limit is raised
+                core::set_limit(id, 1 + k % 2); ops.push(Op::RLimit(id, 1 + k % 2));
+                core::run_search(id, q); ops.push(Op::RSearch(id, q.clone()));
+                core::set_limit(id, 3); ops.push(Op::RLimit(id, 3));
+                core::run_search(id, q); ops.push(Op::RSearch(id, q.clone()));
+                let got: Vec<usize> = core::using_results(id, |rs| rs.iter().map(|x| x.id).collect());
+                if !got.contains(&1) && bad.is_none() { bad = Some(format!("store of 3 records, limit raised to 3: query {:?} does not return record 1 {:?}; ids {:?}", q, recs[0].1, got)); break; }
+            }
+        });
+        let _ = guarded(|| core::destroy_store(id));
+        p.eval(&format!("{}|api-limit-raised|{}", code, k), true);
+        if let Err(e) = res { p.fail(format!("top-level API panicked: {}", e), Case { name: "c13-api".into(), lang: code.to_string(), stream: "probe", ops: ops.clone() }); }
+        if let Some(what) = bad { p.fail(what, Case { name: "c13-api".into(), lang: code.to_string(), stream: "probe", ops: ops.clone() }); }
+    }
+    let budget = budget + p.evaluations;
     let mut i = 0;
     let mut directed = 0usize;
     while p.evaluations < budget {
@@ -1870,6 +1935,27 @@ fn p20(p: &mut ProbeReport, r: &mut Rng, budget: usize) {
             }
         }
         p.notes.insert("exhaustive_sequences".into(), total);
+    }
+    // two ids whose stores each hold more records sharing a gram than ten times the limit, asked in turn (scratch that
+    // is shared between indices but stamped per index would let one id's counters decide the other's candidate cut);
+    // also after destroy + create of one of them
+    for (k, code) in LANGS.iter().enumerate() {
+        let v = vocab(code);
+        let (a, b) = (910_000 + 2 * k, 910_001 + 2 * k);
+        let wa: String = (0..5).map(|_| *r.pick(&v.letters)).collect();
+        let wt: String = (0..5).map(|i| v.letters[(i * 3 + k + 7) % v.letters.len()]).collect();
+        let mut ops = vec![Op::RCreate(a, code.to_string()), Op::RCreate(b, code.to_string())];
+        for i in 0..12 { ops.push(Op::RAdd(a, i + 1, 100 + i, format!("{} {}", wa, v.word(r)))); }
+        for i in 0..12 { ops.push(Op::RAdd(b, i + 1, 100 + i, format!("{} {}", v.word(r), v.word(r)))); }
+        ops.push(Op::RAdd(b, 50, 5, format!("{} {}", wt, v.word(r))));
+        ops.push(Op::RLimit(b, 1));
+        for _ in 0..2 { ops.push(Op::RSearch(a, wa.clone())); ops.push(Op::RSearch(b, wt.clone())); }
+        ops.push(Op::RDestroy(a)); ops.push(Op::RCreate(a, code.to_string()));
+        for i in 0..12 { ops.push(Op::RAdd(a, i + 1, 100 + i, format!("{} {}", wa, v.word(r)))); }
+        ops.push(Op::RSearch(a, wa.clone())); ops.push(Op::RSearch(b, wt.chars().take(4).collect()));
+        let case = Case { name: "c20-two-dense-stores".into(), lang: code.to_string(), stream: "probe", ops };
+        if case.ops.iter().any(|o| matches!(o, Op::RAdd(_, _, _, t) if has_sentinel(t))) { continue; }
+        if !reg_case_against_shadows(p, &case, &format!("dense{}", k)) && p.failures.len() >= 4 { break; }
     }
     let budget = budget + p.evaluations;
     let mut round = 0;
